@@ -431,7 +431,7 @@ def stress_snapshots(ctx):
     srv = ctx.new_server(name='stress')
     tr = ctx.new_trace('stress')
     n0 = 150000 if ctx.quick else 1000000
-    saves = 5 if ctx.quick else 24
+    saves = 8 if ctx.quick else 40
     cl = Client(srv.port, timeout=30.0)
     cl.call([b'FLUSHALL'])
     for i in range(0, n0, 5000):       # L = n0-1 ... 0 (head = largest), Q = 0 ... n0-1
@@ -467,7 +467,24 @@ def stress_snapshots(ctx):
             state['qlo'] += 25
             state['z'] += 1
         w.close()
-    ths = [threading.Thread(target=writer_l), threading.Thread(target=writer_q)]
+    def writer_ttl():
+        # keys that are only ever written WITH a deadline (SET ... PX, SET ... NX PX after DEL, SETEX): no snapshot may hold one without
+        w = Client(srv.port, timeout=30.0)
+        i = 0
+        while not stop.is_set():
+            i += 1
+            batch = []
+            for j in range(8):
+                k = b'lock:%d' % j
+                batch.append(R.enc_cmd([b'SET', k, b'holder-%d' % i, b'PX', b'100000']) if (i + j) % 3 else
+                             R.enc_cmd([b'DEL', k]) + R.enc_cmd([b'SET', k, b'holder-%d' % i, b'NX', b'EX', b'100']))
+            w.send_raw(b''.join(batch))
+            need = sum(1 if (i + j) % 3 else 2 for j in range(8))
+            for _ in range(need):
+                if w.recv(30.0)[0] in ('closed', 'none'):
+                    return
+        w.close()
+    ths = [threading.Thread(target=writer_l), threading.Thread(target=writer_q), threading.Thread(target=writer_ttl)]
     for t in ths:
         t.start()
     dump = os.path.join(srv.dir, 'dump.rdb')
@@ -505,6 +522,9 @@ def stress_snapshots(ctx):
                     nz, nh = len(Z), len(H)
                     if not (before['z'] <= nz <= after['z'] + 1 and before['z'] <= nh <= after['z'] + 1):
                         why = 'sorted set / hash hold %d / %d entries, outside [%d, %d]' % (nz, nh, before['z'], after['z'] + 1)
+                    bare = [bytes.fromhex(k).decode() for k, e in db.items() if bytes.fromhex(k).startswith(b'lock:') and not e[2]]
+                    if bare and not why:
+                        why = 'keys only ever written with a deadline are in the dump without one: %s' % bare[:4]
             tr.emit({'k': 'chk', 'name': 'snapshot_%d_of_large_values_under_writers_is_one_instant_per_key' % i, 'ok': 0 if why else 1, 'detail': why})
             os.remove(copy)
             cases += 1
@@ -521,6 +541,81 @@ def stress_snapshots(ctx):
     ctx.extra_cov['stress_snapshots'] = cases
     ctx.extra_cov['stress_list_elements'] = n0
     return cases
+
+
+def stress_small_snapshots(ctx):
+    """Hundreds of background saves back to back of a SMALL dataset under a writer: eight keys that are only ever written together with
+    a deadline (SET ... PX, DEL + SET ... NX EX, SETEX) — a writer that stores the value and attaches the deadline in two steps is
+    caught when a save reads the key in between.  Every dump is loaded by the real loader; a key without a deadline is a failure."""
+    import threading
+    from client import Client
+    import resp as R
+    srv = ctx.new_server(name='stress2')
+    tr = ctx.new_trace('stress2')
+    stop = threading.Event()
+
+    def writer():
+        w = Client(srv.port, timeout=30.0)
+        i = 0
+        while not stop.is_set():
+            i += 1
+            reqs = []
+            for j in range(8):
+                k = b'lock:%d' % j
+                m = (i + j) % 4
+                if m == 0: reqs += [[b'SET', k, b'h%d' % i, b'PX', b'100000']]
+                elif m == 1: reqs += [[b'DEL', k], [b'SET', k, b'h%d' % i, b'NX', b'EX', b'100']]
+                elif m == 2: reqs += [[b'SETEX', k, b'100', b'h%d' % i]]
+                else: reqs += [[b'SET', k, b'h%d' % i, b'EX', b'100', b'XX']]
+            w.send_raw(b''.join(R.enc_cmd(a) for a in reqs))
+            for _ in reqs:
+                if w.recv(30.0)[0] in ('closed', 'none'):
+                    return
+        w.close()
+    cl = Client(srv.port, timeout=30.0)
+    for j in range(8):
+        cl.call([b'SET', b'lock:%d' % j, b'h0', b'EX', b'100'])
+    th = threading.Thread(target=writer)
+    th.start()
+    dump = os.path.join(srv.dir, 'dump.rdb')
+    copy = os.path.join(ctx.out, 'stress2.rdb')
+    saves = bad = 0
+    detail = ''
+    end = time.monotonic() + (8.0 if ctx.quick else 60.0)
+    try:
+        while time.monotonic() < end and srv.alive():
+            cl.call([b'BGSAVE'], 30.0)
+            if not wait_bgsave(srv, 30.0):
+                detail = 'a background save did not finish'
+                bad += 1
+                break
+            saves += 1
+            try:
+                shutil.copy(dump, copy)
+            except OSError:
+                continue
+            res = rdbload(copy, timeout=60)
+            if res.get('result') != 'ok':
+                bad += 1
+                detail = 'dump %d does not load: %s' % (saves, str(res)[:120])
+                break
+            bare = [bytes.fromhex(k).decode() for k, e in res['dbs'].get('0', {}).items() if not e[2]]
+            if bare:
+                bad += 1
+                detail = 'dump %d holds %s without a deadline' % (saves, bare[:4])
+                break
+    finally:
+        stop.set()
+        th.join(timeout=30)
+        cl.close()
+    tr.emit({'k': 'chk', 'name': 'every_snapshot_under_a_writer_holds_each_key_with_its_deadline', 'ok': 0 if bad else 1,
+             'detail': detail or '%d background saves' % saves})
+    if not srv.alive():
+        tr.emit({'k': 'crash', 'status': srv.exit_status()})
+    ctx.validate(tr, label='stress-small-snapshots')
+    srv.kill()
+    ctx.extra_cov['stress_small_saves'] = saves
+    return saves
 
 
 # -- (iii) truncated and corrupted dumps -----------------------------------------------------------------
@@ -629,6 +724,7 @@ def run(ctx):
     n2 = bgsave_schedules(ctx)
     n2 += autosave_schedules(ctx)
     n2 += stress_snapshots(ctx)
+    n2 += stress_small_snapshots(ctx)
     n3 = corruption(ctx)
     ctx.extra_cov['distinct_cases'] = n1 + n2 + n3
     ctx.extra_cov['fault_points'] = n1
